@@ -24,7 +24,7 @@ RULE = ("scripted: for max_k in 1..4 (KNN) / every 1 <= min_k <= max_k <= 4 (uns
         "create_arcs / calculate_pdf / clustering calls use best_k. Non-trivial = the criterion "
         "sequence has a tie for the best value or the best is not the first candidate")
 ASSUMPTIONS = [
-    "criterion alphabets {0, 0.5, 1} / {0, 1e-21, 0.5, 1}; max_k <= 4",
+    "criterion alphabets {0, 0.5, 0.5+3e-6, 1} / {0, 1e-21, 0.5, 1}; max_k <= 4",
     "every program is also run on an instance previously fitted on the preceding program "
     "(one-step instance history)",
     "the criterion is intercepted at opfython.math.general.opf_accuracy and "
@@ -35,7 +35,7 @@ TRAIN2 = {"X": [[0.0, 0.0], [1.0, 0.0], [0.0, 1.0], [5.0, 5.0], [5.0, 6.0]], "la
 
 
 def bounds(tier):
-    return {"scripted_knn": "max_k 1..4, alphabet {0,0.5,1}: 120 sequences x 2 training sets",
+    return {"scripted_knn": "max_k 1..4, alphabet {0,0.5,0.5+3e-6,1}: 340 sequences x 2 training sets",
             "scripted_unsupervised": "all 1<=min_k<=max_k<=4, alphabet {0,1e-21,0.5,1} x 2 training sets",
             "natural": "P(3..4%s,{0..3}) x validation sets x all k ranges" % (",5" if tier == "thorough" else "")}
 
@@ -223,7 +223,7 @@ def _programs(shard, seed):
         _, ti, mk = shard
         T = [TRAIN, TRAIN2][ti]
         X = (np.array(T["X"]) * sc).tolist()
-        for script in itertools.product([0.0, 0.5, 1.0], repeat=mk):
+        for script in itertools.product([0.0, 0.5, 0.5 + 3e-6, 1.0], repeat=mk):
             yield {"model": "KNNSupervisedOPF", "mode": "features", "X": X, "metric": "euclidean",
                    "labels": T["labels"], "max_k": mk, "val": {"X": X, "labels": T["labels"]},
                    "script": list(script)}
